@@ -57,9 +57,13 @@ def read_verdict_file(path, chr_name):
     return res
 
 
-def real_collect(records, chr_lengths, high_memory, strategy="take_best", pickled=False):
+def real_collect(records, chr_lengths, high_memory, strategy="take_best", pickled=False, stale=None):
     """run the real DatasetProcessor.collect_reads on a record stream; records: numeric dicts grouped per chromosome in
-    the order given (stream order within a chromosome).  Returns {chr number: [(read, [rec dicts])]} or an error."""
+    the order given (stream order within a chromosome).  Returns {chr number: [(read, [rec dicts])]} or an error.
+    stale: the output folder was USED by an earlier run whose verdict files `<save>_multimappers_<chr>` survived (it ran
+    with --keep_tmp or was killed; the new run is a fresh run into the same folder, e.g. with --force): 'empty' = that run
+    resolved no multimapper (its files hold the terminator only), 'records' = its files hold a list with the first record
+    of the chromosome marked suspended and the terminator.  A fresh run must write the same verdicts (seed C08_a4)."""
     DP, IA, MR, SER, IG, ST = _mods()
     d = vlib.scratch_dir("isoverif_c08flow_")
     try:
@@ -101,6 +105,14 @@ def real_collect(records, chr_lengths, high_memory, strategy="take_best", pickle
                 for o in self.objs:
                     yield o
 
+        if stale:
+            for c in chr_lengths:
+                with open(out_raw + "_multimappers_" + G.name_chr(c), "wb") as f:
+                    if stale == "records" and by_chr[G.name_chr(c)]:
+                        old = G.to_basic(by_chr[G.name_chr(c)][0])
+                        old.assignment_type = IA.ReadAssignmentType.suspended
+                        SER.write_list([old], f, IA.BasicReadAssignment.serialize)
+                    SER.write_int(SER.TERMINATION_INT, f)
         saved = (DP.collect_reads_in_parallel, DP.BasicReadAssignmentLoader)
         DP.collect_reads_in_parallel = fake_collect
         DP.BasicReadAssignmentLoader = FakeLoader
@@ -296,6 +308,21 @@ def correspondence(ctx):
                                                "strategy": strategy}, mo, io)
             elif not vlib.is_err(mo) and any(v for v in mo.values()):
                 ctx.mark_nontrivial(["collect_reads", recs, hm, pk])
+        if i % 3 == 0:
+            # a fresh run into a folder an earlier run left its verdict files in: the model knows no earlier state, so the
+            # files written must be the same
+            st = "empty" if i % 2 == 0 else "records"
+            hm = bool(i % 4 == 0)
+            ctx.evaluations += 1
+            ctx.count("op:collect_reads:used_folder_" + st)
+            mo = model_verdicts(ctx, recs, lengths, hm, strategy)
+            io = vlib.canon(real_collect(recs, lengths, hm, strategy, stale=st))
+            ctx.traces_validated += 1
+            if not vlib.same(mo, io):
+                ctx.disagree("collect_reads", {"records": recs, "lengths": dict(lengths), "high_memory": hm, "pickled": False,
+                                               "strategy": strategy, "stale": st}, mo, io)
+            elif not vlib.is_err(mo) and any(v for v in mo.values()):
+                ctx.mark_nontrivial(["collect_reads", recs, hm, "stale", st])
     # 2. loader, introns, edges
     cases = []
     for _ in range(400 if quick else 4000):
@@ -358,6 +385,13 @@ def check_stream(recs, lengths):
     if vlib.is_err(a):
         fails.append(("flow:collect_raises", str(a)))
         return fails
+    # a used output folder (verdict files of an earlier run present) must not change what a fresh run writes
+    for st in ("empty", "records"):
+        u = real_collect(recs, lengths, False, stale=st)
+        if u != a:
+            fails.append(("flow:stale_verdict_files_change_result", "verdict files differ when the folder holds "
+                          "<save>_multimappers_<chr> files of an earlier run (%s)" % st))
+            break
     # the clauses of the statement on what was written: every read with several records has a verdict for every one
     # of them, and the verdicts satisfy priority / suppression / flags (same checks as for the resolver alone)
     from props import C08 as MAIN
